@@ -47,6 +47,17 @@ def cells(thorough):
         out.append(('resp', top, sec, msg, pay, '2.0'))
     for v, pay, top in itertools.product(VERSIONS[1:], PAYLOAD, ('Success', 'Responder')):
         out.append(('resp', top, None, False, pay, v))
+    # the same rules over the synchronous binding (SOAP), where the response handler runs with asynchop off
+    # (no response signature here: the SOAP reader re-serialises the body, a response signature made over other
+    # prefixes does not survive it and the signature check legitimately comes first)
+    for top, sec, pay in itertools.product(TOP, (None, 'AuthnFailed', 'RequestDenied', 'urn:vp:unknown-second'), PAYLOAD[:2]):
+        out.append(('resp', top, sec, False, pay, '2.0', 'soap'))
+    for v in VERSIONS[1:]:
+        out.append(('resp', 'Success', None, False, 'assertion-signed', v, 'soap'))
+    # status codes nested three levels deep: the class is decided by the second level
+    for top, sec, third, pay in itertools.product(('Responder', 'Requester'), ('RequestDenied', 'AuthnFailed', 'urn:vp:unknown-second'),
+                                                  ('AuthnFailed', 'NoPassive', 'urn:vp:private-third'), PAYLOAD[:2]):
+        out.append(('resp', top, sec, False, pay, '2.0', 'post', third))
     # one response handler object consuming two messages in turn (response.authn_response + loads/verify, with and
     # without clear() in between): first a genuine Success response, then a non-Success / non-2.0 one
     for clear in (False, True):
@@ -58,11 +69,14 @@ def cells(thorough):
     for kind, binding in (('AuthnRequest', 'redirect'), ('AuthnRequest', 'post'), ('LogoutRequest', 'soap'), ('AttributeQuery', 'soap')):
         for v in VERSIONS:
             out.append(('req', kind, binding, v))
+            if kind == 'AuthnRequest':
+                # reply endpoint chosen by index instead of URL
+                out.append(('req', kind, binding, v, 'index'))
     return out
 
 
-def document(top, sec, msg, pay, ver, irt='req1', subject='alice'):
-    r = dict(version=ver, status=uri(top) if top not in (None, 'NOSTATUS') else None, status2=uri(sec),
+def document(top, sec, msg, pay, ver, irt='req1', subject='alice', third=None):
+    r = dict(version=ver, status=uri(top) if top not in (None, 'NOSTATUS') else None, status2=uri(sec), status3=uri(third),
              status_msg='something went wrong' if msg else None, has_status=(top != 'NOSTATUS'), irt=irt)
     kw = dict(resp=r)
     if pay == 'none':
@@ -92,9 +106,10 @@ def consume(handler, xml):
 def evaluate(cell):
     env.Clock.set(env.BASE)
     if cell[0] == 'resp':
-        _k, top, sec, msg, pay, ver = cell
-        xml = document(top, sec, msg, pay, ver)
-        obs = oracle.accept_response(sp(), xml)
+        _k, top, sec, msg, pay, ver = cell[:6]
+        soap = len(cell) > 6 and cell[6] == 'soap'
+        xml = document(top, sec, msg, pay, ver, third=cell[7] if len(cell) > 7 else None)
+        obs = oracle.accept_response(sp(), xml, binding=BINDING_SOAP) if soap else oracle.accept_response(sp(), xml)
         return {'accept': obs['accept'], 'exc': obs.get('exc')}
     if cell[0] == 'reuse':
         from saml2_tophat import response as s2response
@@ -105,11 +120,12 @@ def evaluate(cell):
             h.clear()
         second = consume(h, document(top, sec, False, pay, ver, irt='req2', subject='mallory'))
         return {'accept': second['accept'], 'exc': second['exc'], 'first': first['accept']}
-    _k, kind, binding, ver = cell
+    _k, kind, binding, ver = cell[:4]
+    by_index = len(cell) > 4
     server = idp()
     dest = {'AuthnRequest': world.SSO_A if binding == 'redirect' else world.SSO_A + '/post',
             'LogoutRequest': world.SLO_A, 'AttributeQuery': None}[kind]
-    xml = forge.request(env.BASE, kind=kind, version=ver, dest=dest)
+    xml = forge.request(env.BASE, kind=kind, version=ver, dest=dest, acs_index=0 if by_index else None)
     try:
         if kind == 'AuthnRequest':
             if binding == 'redirect':
@@ -145,7 +161,7 @@ def judge(cell, r):
         if r['accept']:
             return 'reused-handler:second-response-with-%s-accepted' % ('version-%r' % ver if ver != '2.0' else 'non-success-status')
         return None
-    _k, top, sec, msg, pay, ver = cell
+    _k, top, sec, msg, pay, ver = cell[:6]
     if ver != '2.0':
         return 'response-with-version-%r-accepted' % ver if r['accept'] else None
     if top == 'Success':
@@ -187,9 +203,10 @@ def run(ctx):
             if c[0] == 'reuse':
                 key = {'kind': y, 'clear_between': c[1], 'top': c[2], 'second': c[3], 'payload': c[4], 'version': c[5]}
             elif c[0] == 'resp':
-                key = {'kind': y.split(':')[0], 'top': c[1], 'second': c[2], 'message': c[3], 'payload': c[4], 'version': c[5]}
+                key = {'kind': y.split(':')[0], 'top': c[1], 'second': c[2], 'message': c[3], 'payload': c[4], 'version': c[5],
+                       'via': c[6] if len(c) > 6 else 'post', 'third': c[7] if len(c) > 7 else None}
             else:
-                key = {'kind': y.split(':')[0], 'request': c[1], 'binding': c[2], 'version': c[3]}
+                key = {'kind': y.split(':')[0], 'request': c[1], 'binding': c[2], 'version': c[3], 'by_index': len(c) > 4}
             ctx.violation(key, {'observed': r, 'detail': y})
     if not acc:
         ctx.violation({'kind': 'nothing-accepted'}, {})
@@ -197,7 +214,7 @@ def run(ctx):
         'level': 'exploration',
         'coverage': {
             'evaluations': len(cs), 'distinct_nontrivial': len(nontriv), 'exhaustive': True, 'accepted': acc,
-            'rule': 'complete product: top-level status (Success, Requester, Responder, VersionMismatch, unknown, StatusCode absent, Status absent) x second-level (absent, each of the 21 standard codes, unknown) x StatusMessage x payload (none / signed assertion / signed response+assertion), top-level values also with 7 near-misses of the Success URN (prefix, shorter, suffix, bare word, longer, other case, empty); one response handler consuming a genuine response and then a non-Success / non-2.0 one (with and without clear()); Version {2.0,1.0,1.1,2.1,3.0,two,empty,near-2.0 spellings,attribute absent} on responses and on AuthnRequest (Redirect, POST) / LogoutRequest / AttributeQuery (SOAP); non-trivial = non-Success status or non-2.0 version or a request',
+            'rule': 'complete product: top-level status (Success, Requester, Responder, VersionMismatch, unknown, StatusCode absent, Status absent) x second-level (absent, each of the 21 standard codes, unknown) x StatusMessage x payload (none / signed assertion / signed response+assertion), top-level values also with 7 near-misses of the Success URN (prefix, shorter, suffix, bare word, longer, other case, empty); the status x payload grid also over the SOAP binding; three-level status codes (class decided by the second level); one response handler consuming a genuine response and then a non-Success / non-2.0 one (with and without clear()); Version {2.0,1.0,1.1,2.1,3.0,two,empty,near-2.0 spellings,attribute absent} on responses and on AuthnRequest (Redirect, POST; reply endpoint by URL and by index) / LogoutRequest / AttributeQuery (SOAP); non-trivial = non-Success status or non-2.0 version or a request',
             'samples': [{'cell': list(cs[i]), 'observed': res[i]} for i in (1, len(cs) // 2, len(cs) - 1)],
             'distinct_outcomes': len(hist), 'outcome_histogram': hist,
         },
@@ -211,8 +228,8 @@ def replay(ctx, w):
     if 'clear_between' in w:
         c = ('reuse', w['clear_between'], w['top'], w['second'], w['payload'], w['version'])
     elif 'request' in w:
-        c = ('req', w['request'], w['binding'], w['version'])
+        c = ('req', w['request'], w['binding'], w['version']) + (('index',) if w.get('by_index') else ())
     else:
-        c = ('resp', w['top'], w['second'], w['message'], w['payload'], w['version'])
+        c = ('resp', w['top'], w['second'], w['message'], w['payload'], w['version'], w.get('via', 'post')) + ((w['third'],) if w.get('third') else ())
     r = evaluate(c)
     return {'violation': bool(judge(c, r)), 'observed': r}
